@@ -24,6 +24,7 @@ ASSUMPTIONS = ["bin of u is the unique k with F_(k-1) <= u < F_k computed with e
                "statistic oracles as in C05/C16; tolerance 1e-9*(1+sum|terms|) resp. eps/lambda",
                "resampled-M / MLL cases have >= 2 magnitude edges (the tests take the bin width from the first two edges)",
                "seeded binary/Brier runs only when n_active bins of relative weight >= 1e-2 exist (bounded expected number of rejection draws); a run exceeding 200x that bound in *number of uniform draws* (not time) is reported as unreachable-bin violation",
+               "L-test count law: over 3000 seeded simulations the simulated sizes have mean within 6 sigma of the forecast total and variance within +-30% of it (a statistical sub-check with deterministic seeds; the bounds are > 6 sigma wide)",
                "soft spies wrap module attributes _simulate_catalog; skipped (and counted) if absent"]
 SHARDS = {"quick": 8, "thorough": 16}
 ONE_MINUS = math.nextafter(1.0, 0.0)
@@ -123,6 +124,8 @@ def counts_of(bs, n):
 def check_case(ctx, case):
     if case["k"] == "catalog_mtests":
         return check_catalog_mtests(ctx, case)
+    if case["k"] == "l_count_law":
+        return check_l_count_law(ctx, case)
     from csep.core import poisson_evaluations as P, binomial_evaluations as Bn, brier_evaluations as Br
     S = G.Setup(case)
     region = S.region()
@@ -283,6 +286,39 @@ def check_case(ctx, case):
                     break
 
 
+def check_l_count_law(ctx, case):
+    """L-test: the number of simulated events is a Poisson draw with the forecast mean (statistical, 6-sigma bounds)."""
+    from csep.core import poisson_evaluations as P
+    S = G.Setup(case)
+    region = S.region()
+    mu = float(S.rates.sum())
+    nsim = case["nsim"]
+    counts = []
+    orig = getattr(P, "_simulate_catalog", None)
+    if orig is None:
+        ctx.count("skipped:no_spy:l_count_law")
+        return
+
+    def spy(n, *a, **k):
+        r = orig(n, *a, **k)
+        counts.append(float(numpy.sum(r)))
+        return r
+    with mock.patch.object(P, "_simulate_catalog", spy):
+        o = call(P.likelihood_test, S.forecast(region), S.catalog(region), num_simulations=nsim, seed=case["seed"])
+    if not o.ok:
+        ctx.unexpected(o, "likelihood_test_count_law")
+        return
+    if len(counts) != nsim:
+        ctx.violation("poisson_L:number_of_simulations", {"got": len(counts), "want": nsim})
+        return
+    m = sum(counts) / nsim
+    v = sum((c - m) ** 2 for c in counts) / (nsim - 1)
+    if abs(m - mu) > 6 * math.sqrt(mu / nsim):
+        ctx.violation("poisson_L:simulated_sizes_mean_not_forecast_total", {"mean": m, "forecast_total": mu, "n_obs": len(S.obs), "nsim": nsim})
+    elif not (0.7 * mu <= v <= 1.3 * mu):
+        ctx.violation("poisson_L:simulated_sizes_not_poisson_dispersed", {"variance": v, "forecast_total": mu, "nsim": nsim})
+
+
 def check_catalog_mtests(ctx, case):
     """resampled-M and MLL: same seed => same result, for seed 0 too."""
     from csep.core import catalog_evaluations as CE
@@ -320,6 +356,8 @@ def check_catalog_mtests(ctx, case):
 
 
 def nontrivial(case):
+    if case["k"] == "l_count_law":
+        return True
     if case["k"] != "gridded":
         return len(case["cats"]) >= 2
     zero = any(r == 0 for r in case["rates"])
@@ -377,7 +415,22 @@ def mtest_cases(draw):
     return c
 
 
+@st.composite
+def l_count_cases(draw):
+    c = draw(G.setups(max_cells=6, max_mags=3, max_events=60, lo=-2, hi=0))
+    # forecast total between 0.5 and 50, observed count unrelated to it
+    tot = sum(c["rates"]) or 1.0
+    target = draw(st.sampled_from([0.5, 1.0, 3.0, 10.0, 50.0]))
+    c["rates"] = [r * target / tot for r in c["rates"]]
+    c["nsim"] = 3000
+    c["seed"] = draw(st.integers(0, 2**31 - 1))
+    c["k"] = "l_count_law"
+    return c
+
+
 def run(ctx):
+    ctx.drive(l_count_cases(), ctx.n(3, 20), fn=lambda c, case: (check_case(c, case), c.record(case, True, "l_count_law")), salt=3)
+
     def fn(c, case):
         check_case(c, case)
         c.record(case, nontrivial(case), case["k"] + (":%s" % ("integer_rates" if case.get("dyadic") == "int" else "dyadic") if case.get("dyadic") else ""))
